@@ -264,6 +264,13 @@ def module_work(name, mod, tier, rng, viols, cells, counters, samples, probe, ca
                 for gname, g, rule in rules:
                     kind, i, k = rule
                     r = call_gen(g, arg_for(rule, w))
+                    if r is None:
+                        # a generator that fails on a well-formed payload of the documented shape
+                        o = C.outcome(g, arg_for(rule, w))
+                        if o[0] == 'exc' and arg_for(rule, w).isdigit() and arg_for(rule, w).isascii():
+                            add(viols, 'C05|%s|%s|generator-raises-%s' % (name, gname.split('[')[0], o[1]),
+                                '%s.%s(%r) raised %s (%s) for a payload of the same shape as valid numbers' % (name, gname, arg_for(rule, w), o[1], o[3]),
+                                {'module': name, 'number': w, 'generator': gname, 'kind': 'm3'})
                     if r is None or len(r) != k:
                         okgen = False
                         break
